@@ -65,6 +65,8 @@ func ruleC07EqKinds(p *Prog, a *Anchors, r *Report) {
 			}
 		}
 	}
+	ruleC07EqExact(p, r, eq)
+	ruleC07BoxedLast(p, r, eq)
 	families := map[string][]string{
 		"integers": {"IsInteger"},
 		"floats":   {"IsFloat", "IsNumber"},
@@ -92,6 +94,56 @@ func ruleC07EqKinds(p *Prog, a *Anchors, r *Report) {
 		} else {
 			r.Bad(n, p.Pos(eq.Pos()), "%s never asks both operands whether they are %s: they are compared as boxed Go values, so two equal %s held in different Go types (float32 and float64, a named type and its base type, a pointer and a value) are `!=` although `<=` and `>=` both hold", p.FuncName(eq), n, n)
 		}
+	}
+}
+
+// ruleC07EqExact (an obligation of R-C07-EQKINDS): Value.Integer() saturates — every unsigned value no int holds is the
+// largest int — so equality of two integers must not be the bare comparison of the two accessor results: two
+// different huge unsigned values would be `==` (and ifchanged would not see the change). Where the method returns
+// Integer() == Integer() of its operands as its answer, that is reported.
+func ruleC07EqExact(p *Prog, r *Report, eq *ssa.Function) {
+	integer := p.Method("Value", "Integer")
+	if integer == nil {
+		return
+	}
+	isIntegerOf := func(v ssa.Value) bool {
+		c, ok := v.(*ssa.Call)
+		return ok && c.Common().StaticCallee() == integer
+	}
+	bare := func(v ssa.Value) bool {
+		bo, ok := v.(*ssa.BinOp)
+		return ok && bo.Op == token.EQL && isIntegerOf(bo.X) && isIntegerOf(bo.Y)
+	}
+	found := false
+	var at ssa.Instruction
+	for _, f := range clusterOf(p, eq, 1) {
+		for _, ret := range returnsOf(f) {
+			if len(ret.Results) != 1 {
+				continue
+			}
+			var walk func(v ssa.Value, d int)
+			seen := map[ssa.Value]bool{}
+			walk = func(v ssa.Value, d int) {
+				if v == nil || seen[v] || d > 6 {
+					return
+				}
+				seen[v] = true
+				if bare(v) {
+					found, at = true, ret
+				}
+				if phi, ok := v.(*ssa.Phi); ok {
+					for _, e := range phi.Edges {
+						walk(e, d+1)
+					}
+				}
+			}
+			walk(res(ret, 0), 0)
+		}
+	}
+	if found {
+		r.Bad("integers:exact", p.InstrPos(at), "%s answers with Integer() == Integer() of its operands: Integer() saturates, so every two unsigned values above the largest int are equal — {{ a == b }} is True for uint64 2^63 and 2^64-1, and {%% ifchanged x %%} does not see x change between them", p.FuncName(eq))
+	} else {
+		r.OK("integers:exact", p.Pos(eq.Pos()), "equality of integers is not decided by the saturating accessor alone")
 	}
 }
 
@@ -236,5 +288,140 @@ func ruleC07Unary(p *Prog, a *Anchors, r *Report) {
 	}
 	if n == 0 {
 		r.OK("parseSimpleExpression:sign-on-term", p.Pos(parse.Pos()), "the parser never sets the flag")
+	}
+	ruleC07SignOnFirstFactor(p, r)
+}
+
+// ruleC07SignOnFirstFactor (an obligation of R-C07-UNARY): at the `* / %` level the sign belongs to the FIRST factor. The
+// loop of that level nests to the left — the node built first ends up innermost —, so a sign flag of that level's
+// node has to be set on the node made before the loop, not on the node the function returns after it (the outermost
+// one: -a * b * c would be (-(a * b)) * c).
+func ruleC07SignOnFirstFactor(p *Prog, r *Report) {
+	node := p.Named("term")
+	parse := p.Method("Parser", "parseTerm")
+	if node == nil || parse == nil {
+		return
+	}
+	st, ok := node.Underlying().(*types.Struct)
+	if !ok {
+		return
+	}
+	n := 0
+	for _, f := range withClosures(parse) {
+		for _, b := range f.Blocks {
+			for _, in := range b.Instrs {
+				s, ok := in.(*ssa.Store)
+				if !ok {
+					continue
+				}
+				fa, ok := s.Addr.(*ssa.FieldAddr)
+				if !ok || structOf(fa.X.Type()) != node {
+					continue
+				}
+				if bt, isB := st.Field(fa.Field).Type().Underlying().(*types.Basic); !isB || bt.Kind() != types.Bool {
+					continue
+				}
+				if c, isC := s.Val.(*ssa.Const); isC && c.Value != nil && c.Value.ExactString() == "false" {
+					continue
+				}
+				n++
+				key := "parseTerm:sign-on-first-factor"
+				if n > 1 {
+					key += "#" + itoa(int64(n))
+				}
+				base := stripLoad(fa.X)
+				_, isAlloc := base.(*ssa.Alloc)
+				if isAlloc && innermostLoopHeader(base.(*ssa.Alloc).Block()) == nil {
+					r.OK(key, p.InstrPos(in), "the flag is set on the node made before the loop (the innermost one, which holds the first factor)")
+				} else {
+					r.Bad(key, p.InstrPos(in), "term.%s is set on %s, not on the node made before the loop: the loop wraps earlier nodes into later ones, so with three factors the flag lands on the outermost node and -a * b * c is evaluated as (-(a * b)) * c", st.Field(fa.Field).Name(), p.VN(base))
+				}
+			}
+		}
+	}
+}
+
+// ruleC07BoxedLast (an obligation of R-C07-EQKINDS): the comparison of the boxed Go values (Interface() == Interface())
+// is the last resort. It is reached only after every family predicate was asked: an early exit to it — "two values of
+// one type: nothing to normalise" — compares two *int pointing to equal numbers by address.
+func ruleC07BoxedLast(p *Prog, r *Report, eq *ssa.Function) {
+	iface := p.Method("Value", "Interface")
+	if iface == nil {
+		return
+	}
+	valueT := structOf(eq.Signature.Recv().Type())
+	cluster := clusterOf(p, eq, 1)
+	// functions of the cluster that compare Interface() results
+	boxedIn := map[*ssa.Function]ssa.Instruction{}
+	for _, f := range cluster {
+		for _, b := range f.Blocks {
+			for _, in := range b.Instrs {
+				bo, ok := in.(*ssa.BinOp)
+				if !ok || bo.Op != token.EQL {
+					continue
+				}
+				isIface := func(v ssa.Value) bool {
+					c, ok := v.(*ssa.Call)
+					return ok && c.Common().StaticCallee() == iface
+				}
+				if isIface(bo.X) && isIface(bo.Y) {
+					boxedIn[f] = in
+				}
+			}
+		}
+	}
+	if len(boxedIn) == 0 {
+		return
+	}
+	isFamilyTest := func(in ssa.Instruction) bool {
+		c, ok := in.(*ssa.Call)
+		if !ok || c.Common().StaticCallee() == nil || c.Common().StaticCallee().Signature.Recv() == nil {
+			return false
+		}
+		n := c.Common().StaticCallee().Name()
+		return structOf(c.Common().StaticCallee().Signature.Recv().Type()) == valueT && (n == "IsInteger" || n == "IsFloat" || n == "IsString" || n == "IsBool" || n == "IsNumber")
+	}
+	// the sites in eq itself from which the boxed comparison is reached
+	var sites []ssa.Instruction
+	if in, here := boxedIn[eq]; here {
+		sites = append(sites, in)
+	}
+	for _, b := range eq.Blocks {
+		for _, in := range b.Instrs {
+			if c, ok := in.(*ssa.Call); ok && c.Common().StaticCallee() != nil {
+				if _, is := boxedIn[c.Common().StaticCallee()]; is && c.Common().StaticCallee() != eq {
+					sites = append(sites, in)
+				}
+			}
+		}
+	}
+	// how many distinct family predicates the method asks at all
+	asked := map[string]bool{}
+	for _, b := range eq.Blocks {
+		for _, in := range b.Instrs {
+			if isFamilyTest(in) {
+				asked[in.(*ssa.Call).Common().StaticCallee().Name()] = true
+			}
+		}
+	}
+	for i, site := range sites {
+		key := "boxed-comparison:last"
+		if i > 0 {
+			key += "#" + itoa(int64(i+1))
+		}
+		missing := ""
+		for name := range asked {
+			nm := name
+			if !MustPass(site, func(x ssa.Instruction) bool {
+				return isFamilyTest(x) && x.(*ssa.Call).Common().StaticCallee().Name() == nm
+			}) {
+				missing = nm
+			}
+		}
+		if missing == "" {
+			r.OK(key, p.InstrPos(site), "the comparison of the boxed values is reached only after every family predicate was asked")
+		} else {
+			r.Bad(key, p.InstrPos(site), "the comparison of the boxed Go values can be reached without %s() having been asked: two operands of one pointer type that point to equal numbers, strings or booleans are compared by address (a == b is False where a <= b and a >= b hold)", missing)
+		}
 	}
 }
